@@ -229,8 +229,8 @@ impl Prop for C03 {
     }
     fn runs(&self, tier: Tier) -> u64 {
         match tier {
-            Tier::Quick => 24_000,
-            Tier::Thorough => 1_200_000,
+            Tier::Quick => 300_000,
+            Tier::Thorough => 6_000_000,
         }
     }
     fn generate(&self, i: u64, r: &mut Rng, tier: Tier) -> Scenario {
